@@ -115,11 +115,12 @@ const (
 	stBigFont  // span, font-size: 20px around words 2-3
 	stPadAsym  // span, padding: 1px 5px 6px (bottom larger than top: must not change the line either)
 	stVertAll  // span, vertical margins, borders and paddings that differ between top and bottom, nothing horizontal
+	stGlued    // plain span that opens inside word 2 (no break opportunity at its start) and closes after word 3
 	nStruct
 )
 
 var structName = [nStruct]string{"none", "span", "span-margin", "span-padding", "span-border", "span-margin-left",
-	"span-margin-right", "span-mbp", "nested-spans", "inline-block", "inline-block-text", "big-font", "span-padding-bottom-heavy", "span-vertical-mbp"}
+	"span-margin-right", "span-mbp", "nested-spans", "inline-block", "inline-block-text", "big-font", "span-padding-bottom-heavy", "span-vertical-mbp", "span-glued"}
 
 type row struct {
 	ws        string // normal nowrap pre pre-wrap pre-line
@@ -232,10 +233,23 @@ func content(p para, st int) []elem {
 		outer = &spPadAsym
 	case stVertAll:
 		outer = &spVertAll
+	case stGlued:
+		outer = &spPlain
 	}
 	for i := 0; i < n; i++ {
 		if i > 0 {
 			text(sepText[p.seps[i-1]])
+		}
+		if st == stGlued && i == s && p.lens[i] >= 2 {
+			// the span opens after the first letter of the word
+			w := p.word(i)
+			text(w[:1])
+			out = append(out, elem{kind: 1, span: *outer})
+			out = append(out, elem{kind: 0, text: w[1:]})
+			if i == e {
+				out = append(out, elem{kind: 2, span: *outer})
+			}
+			continue
 		}
 		if outer != nil && i == s {
 			out = append(out, elem{kind: 1, span: *outer})
